@@ -22,6 +22,16 @@ CHECKS['C16'] = dict(engine='mirsym', category='model_checking', design='DESIGN.
    text="Symbolic execution of the MIR of MetaType's PartialEq, Ord, PartialOrd, Hash, type_id, is_phantom and new over all pairs of 128-bit type ids with independent opaque function pointers; z3 refutes the negation of each law (eq <=> same id, cmp is the id order and consistent with eq, partial_cmp == Some(cmp), hash feeds the id only). Coherence: every impl TypeInfo of the crate whose Identity differs from Self is executed and must be a single forwarding call returning <Identity as TypeInfo>::type_info() unchanged; PhantomData<T>'s body must not mention T.",
    note="TypeId modelled as an opaque 128-bit value (==, total order, hash feeds that value); injectivity of TypeId::of is rustc's guarantee. TypeInfo impls outside the crate are outside the claim (the derive always emits Identity = Self).",
    technique=TECH)
+STEP_NOTE = "Quantified hypotheses (representation invariant, rely condition) are used through ground instances at the relevant terms - sound for 'unsat'; a failed obligation is reported only when a native registration history reproduces a violation. into_portable bodies are assumed to touch the registry only through register_type/register_types/map_into_portable (call-log obligation of C02). len < 2^32."
+CHECKS['C01'] = dict(engine='mirsym', category='other', design='DESIGN.md §6 C01',
+   text="Inductive rely/guarantee step of Registry::register_type executed from its MIR (register_type, intern_type_id, Interner::intern_or_get, MetaType::type_id/type_info): arbitrary pre-state as z3 arrays under the representation invariant, nested conversion havocked under the rely condition; z3 discharges every conjunct of the guarantee and of the invariant, the side obligations (R reflexive, transitive; density and closedness at quiescence), From<Registry> and builder finish unrolled (n<=4/6), and the retain exploration of C10 (exhaustive n<=2) for 'result well-formed'. One step covers histories of any length below 2^32 types. Not called a proof.",
+   note=STEP_NOTE + " Decoding its own output (producer d) follows from C07.", technique='SMT-discharged inductive rely/guarantee step over symbolically executed MIR + bounded symbolic execution (retain, From, finish); z3')
+CHECKS['C05'] = dict(engine='mirsym', category='other', design='DESIGN.md §6 C05',
+   text="(1) The register_type step of C01(a) restricted to deduplication: a present TypeId returns the existing id, changes nothing, evaluates nothing; an absent one gets exactly one entry evaluated exactly once. (2) Identity algebra: the Identity declaration of every impl TypeInfo is read from the source into a recursive z3 function over an algebraic datatype of type expressions; z3 decides for all type expressions (any nesting where unfolding suffices, else depth<=4/6) that wrappers resolve to their target, Vec/VecDeque/&[T] to [T], String to str, all PhantomData to one identity, and that different generic arguments or constructors never merge.",
+   note=STEP_NOTE + " MetaType::new stores TypeId::of::<T::Identity>() (checked from MIR in C16); TypeId::of injective (rustc).", technique='SMT: inductive step over symbolically executed MIR + z3 algebraic-datatype reasoning over the extracted Identity declarations')
+CHECKS['C11'] = dict(engine='mirsym', category='other', design='DESIGN.md §6 C11',
+   text="Stability of ids and definitions is the guarantee of the register_type step (executed from MIR from an arbitrary pre-state): interned prefix kept, existing definitions unchanged, closed under sequencing because the relation is proved reflexive and transitive by z3. Byte-identical replay: registration is executed by a deterministic interpreter and the MIR call graph of registry/interner/portable/meta_type/ty is scanned for nondeterministic APIs. Order independence up to renaming is derived (first-visit numbering, C16, C02) and only cross-checked natively on permutations of a type corpus.",
+   note=STEP_NOTE + " The permutation statement is not solver-decided over MIR (stated in evidence.outside_the_claim).", technique='SMT-discharged inductive step over symbolically executed MIR; z3')
 NA = {
 }
 m = {
